@@ -1372,7 +1372,7 @@ DynamicExpression:
 	    CALL(@1,@5, expr_sum_dynamic_begin($3,$5));
 	} ')' Expression   {
 	    CALL(@1,@8, expr_sum_dynamic_end($3));
-	}
+	} %prec T_SUM
         | T_FOREACH '(' Id ':' NonTypeId {
 	    CALL(@1,@5, expr_identifier($5));
 	    CALL(@1,@5, expr_foreach_dynamic_begin($3,$5));
